@@ -8,5 +8,6 @@ Set Extraction KeepSingleton.
 Extraction "model.ml" extraction_prelude
   natural_cmp natural_spec tokenize cut_offsets
   name_cmp_dec arg_cmp_dec sort_args_dec sort_sb_dec spec_arg_cmp_dec name_class dec_parse
+  arg_cmp_tbl sort_args_tbl sort_sb_tbl spec_arg_cmp_tbl tbl_grammar_ok
   with_tie_breakers
   insert_entry insert_group dump_forest sort_forest_dec forest_sb_dec display_name cmp_by_attr spec_tree_cmp.
